@@ -9,8 +9,6 @@ namespace RV.C08
 
 /-! ## Tables regenerated from rdflib's source (re-proved on every run) -/
 
-def numericBase : List DT := [.integer, .decimal, .float, .double]
-
 /-- `type_promotion` never raises on numeric datatypes, is commutative, is idempotent up to the
     super type, and realises the chain integer ⊑ decimal ⊑ float ⊑ double of XPath numeric promotion -/
 def Statement_type_promotion_table : Prop :=
@@ -154,5 +152,244 @@ theorem slice_of_ordered : Statement_slice_of_ordered := by
   refine ⟨e, ?_⟩
   rw [e]
   exact ((orderby_spec_partial keys rows h).2.sublist (List.drop_sublist _ _)).sublist (List.take_sublist _ _)
+
+/-! ## GROUP BY (§18.5 Group, AggregateJoin) -/
+
+/-- GROUP BY partitions the solutions by their key values: one row per distinct key (in order of first
+    occurrence), whose aggregates have been fed exactly the solutions with that key, in order; every solution
+    falls into exactly one group.  (Zero solutions: the single row without bindings of W3C test agg-empty-group.) -/
+def Statement_group_partition : Prop :=
+  ∀ (w : Nat) (ks : List Nat) (A : List AggSpec) (rows : List Row),
+    aggregateJoin w (some ks) A rows =
+      (if rows = [] then [emptyRow w]
+       else (firstOcc (rows.map (keyOf ks))).map
+         (fun k => bindAll A (foldAcc A (rows.filter (fun r => keyOf ks r = k))) (emptyRow w))) ∧
+    (firstOcc (rows.map (keyOf ks))).Nodup ∧
+    (∀ r ∈ rows, keyOf ks r ∈ firstOcc (rows.map (keyOf ks))) ∧
+    foldAcc A rows = A.map (fun a => accRun a rows)
+
+theorem group_partition : Statement_group_partition := by
+  intro w ks A rows
+  refine ⟨?_, nodup_firstOcc _, fun r hr => (mem_firstOcc _ _).2 (List.mem_map_of_mem hr), foldAcc_eq A rows⟩
+  obtain ⟨h1, h2⟩ := groupAll_spec A ks rows
+  have hgs : groupAll A ks [] rows = (firstOcc (rows.map (keyOf ks))).map
+      (fun k => (k, foldAcc A (rows.filter (fun r => keyOf ks r = k)))) := by
+    rw [← h1, List.map_map]
+    conv => lhs; rw [← List.map_id (groupAll A ks [] rows)]
+    apply List.map_congr_left
+    intro g hg
+    simp only [id, Function.comp]
+    rw [← h2 g hg]
+  unfold aggregateJoin
+  simp only
+  cases rows with
+  | nil => simp [groupAll]
+  | cons r rs =>
+    simp only [reduceCtorEq, if_false]
+    rw [hgs]
+    simp only [List.map_cons, firstOcc, List.map_map]
+    rfl
+
+/-- without GROUP BY (aggregates only) there is exactly one group, also over zero solutions -/
+def Statement_implicit_group_single_row : Prop :=
+  ∀ (w : Nat) (A : List AggSpec) (rows : List Row),
+    aggregateJoin w none A rows = [bindAll A (foldAcc A rows) (emptyRow w)]
+
+theorem implicit_group_single_row : Statement_implicit_group_single_row := by
+  intro w A rows; rfl
+
+/-! ## The set functions (§18.5.1).  `aggValue a rows` is what the accumulator of aggregate `a` binds after
+    having been fed `rows`; `argVals a rows` are the argument's values, errors (unbound, type errors) left out —
+    the reading rdflib implements and pins in its tests; on groups without errors it coincides with §18.5.1 read
+    literally. -/
+
+/-- COUNT(*) counts solutions, COUNT(expr) the non-error values; DISTINCT counts each once -/
+def Statement_count_spec : Prop :=
+  ∀ (a : AggSpec) (rows : List Row), a.kind = .count →
+    aggValue a rows = some (.num .integer
+      ((if a.star then (dedupIf a.dist rows).length else (dedupIf a.dist (argVals a rows)).length : Nat) : Rat) 0)
+
+theorem count_spec : Statement_count_spec := by
+  intro a rows hk
+  cases hs : a.star with
+  | false =>
+    obtain ⟨seen, h, _⟩ := count_arg_inv a hk hs rows
+    simp [aggValue, h, AccSt.value]
+  | true =>
+    obtain ⟨seen, h, _⟩ := count_star_inv a hk hs rows
+    simp [aggValue, h, AccSt.value]
+
+/-- SUM adds the (DISTINCT) numeric values exactly; its datatype is the XPath promotion of their datatypes,
+    starting from the integer zero -/
+def Statement_sum_spec : Prop :=
+  ∀ (a : AggSpec) (rows : List Row), a.kind = .sum →
+    aggValue a rows = some (mkNum (promoteAll .integer ((numArgs a rows).map (·.1)))
+      (sumRat ((numArgs a rows).map (·.2.1))) (maxScale ((numArgs a rows).map (·.2.2))))
+
+theorem sum_spec : Statement_sum_spec := by
+  intro a rows hk
+  obtain ⟨seen, h, _⟩ := sum_inv a hk rows
+  simp [aggValue, h, AccSt.value, sumDT_getD]
+
+/-- AVG = Sum / Count over the (DISTINCT) numeric values, integer 0 for none; xsd:decimal unless a value is
+    xsd:float/xsd:double (then a floating datatype) -/
+def Statement_avg_spec : Prop :=
+  ∀ (a : AggSpec) (rows : List Row), a.kind = .avg →
+    let ns := numArgs a rows
+    let q := sumRat (ns.map (·.2.1)) / ((ns.length : Nat) : Rat)
+    (ns = [] → aggValue a rows = some (.num .integer 0 0)) ∧
+    (ns ≠ [] → (ns.map (·.1)).any DT.isFloating = false → aggValue a rows = some (.num .decimal q 0)) ∧
+    (ns ≠ [] → (ns.map (·.1)).any DT.isFloating = true →
+      ∃ d, d.isFloating = true ∧ aggValue a rows = some (mkNum d q 0))
+
+theorem avg_spec : Statement_avg_spec := by
+  intro a rows hk
+  obtain ⟨seen, dt, h, hdt, _⟩ := avg_inv a hk rows
+  refine ⟨?_, ?_, ?_⟩
+  · intro hn
+    simp [aggValue, h, AccSt.value, hn]
+  · intro hn hf
+    obtain ⟨d0, rfl, _, hfl⟩ := hdt.2 hn
+    have hlen : (numArgs a rows).length ≠ 0 := fun e => hn (List.length_eq_zero_iff.1 e)
+    rw [hf] at hfl
+    simp [aggValue, h, AccSt.value, hlen, hfl]
+  · intro hn hf
+    obtain ⟨d0, rfl, _, hfl⟩ := hdt.2 hn
+    have hlen : (numArgs a rows).length ≠ 0 := fun e => hn (List.length_eq_zero_iff.1 e)
+    rw [hf] at hfl
+    exact ⟨d0, hfl, by simp [aggValue, h, AccSt.value, hlen, hfl]⟩
+
+/-- MIN/MAX: unbound for no values; otherwise a value of the group that no value of the group precedes
+    (resp. that precedes no value of the group) in the SPARQL ordering (`minOk`, `maxOk` in Spec.lean) -/
+def Statement_min_spec : Prop :=
+  ∀ (a : AggSpec) (rows : List Row), a.kind = .min → minOk (aggValue a rows) (argVals a rows) = true
+
+def Statement_max_spec : Prop :=
+  ∀ (a : AggSpec) (rows : List Row), a.kind = .max → maxOk (aggValue a rows) (argVals a rows) = true
+
+theorem min_spec_partial (a : AggSpec) (rows : List Row) (hk : a.kind = .min) (hok : ValsOk a rows) :
+    minOk (aggValue a rows) (argVals a rows) = true := by
+  rcases min_inv a hk rows hok with ⟨h1, h2⟩ | ⟨m, h1, h2⟩
+  · simp [aggValue, h2, AccSt.value, h1, minOk]
+  · simp only [aggValue, h1, AccSt.value, minOk, Bool.and_eq_true, List.contains_eq_mem, decide_eq_true_eq,
+      List.all_eq_true, Bool.not_eq_eq_eq_not, Bool.not_true]
+    refine ⟨h2.1, fun t ht => ?_⟩
+    cases hs : sparqlLt (some t) (some m) with
+    | false => rfl
+    | true => have := keyLt_of_sparqlLt hs; rw [h2.2 t ht] at this; cases this
+
+theorem max_spec_partial (a : AggSpec) (rows : List Row) (hk : a.kind = .max) (hok : ValsOk a rows) :
+    maxOk (aggValue a rows) (argVals a rows) = true := by
+  rcases max_inv a hk rows hok with ⟨h1, h2⟩ | ⟨m, h1, h2⟩
+  · simp [aggValue, h2, AccSt.value, h1, maxOk]
+  · simp only [aggValue, h1, AccSt.value, maxOk, Bool.and_eq_true, List.contains_eq_mem, decide_eq_true_eq,
+      List.all_eq_true, Bool.not_eq_eq_eq_not, Bool.not_true]
+    refine ⟨h2.1, fun t ht => ?_⟩
+    cases hs : sparqlLt (some m) (some t) with
+    | false => rfl
+    | true => have := keyLt_of_sparqlLt hs; rw [h2.2 t ht] at this; cases this
+
+/-- C08-K1 again: MIN over `1u, "a", 5` answers 5 -/
+theorem min_spec_witness :
+    ¬ (minOk (aggValue ⟨.min, false, false, .var 0, none, 1⟩ k1Rows)
+        (argVals ⟨.min, false, false, .var 0, none, 1⟩ k1Rows) = true) := by
+  decide +kernel
+
+/-- SAMPLE: a value of the group (the first one), unbound iff there is none -/
+def Statement_sample_spec : Prop :=
+  ∀ (a : AggSpec) (rows : List Row), a.kind = .sample →
+    aggValue a rows = (argVals a rows).head? ∧
+    (∀ m, aggValue a rows = some m → m ∈ argVals a rows) ∧ (aggValue a rows = none ↔ argVals a rows = [])
+
+theorem sample_spec : Statement_sample_spec := by
+  intro a rows hk
+  have h := sample_inv a hk rows
+  have e : aggValue a rows = (argVals a rows).head? := by simp [aggValue, h, AccSt.value]
+  refine ⟨e, ?_, ?_⟩
+  · intro m hm
+    rw [e] at hm
+    exact List.mem_of_mem_head? hm
+  · rw [e]; cases argVals a rows <;> simp
+
+/-- GROUP_CONCAT: the STR() forms of the (DISTINCT) values joined by the separator (default one space) -/
+def Statement_groupconcat_spec : Prop :=
+  ∀ (a : AggSpec) (rows : List Row), a.kind = .gconcat →
+    aggValue a rows = some (.str (joinStr (a.sep.getD [32]) ((dedupIf a.dist (argVals a rows)).map lexOf)) [])
+
+theorem groupconcat_spec : Statement_groupconcat_spec := by
+  intro a rows hk
+  obtain ⟨seen, h, _⟩ := gc_inv a hk rows
+  simp [aggValue, h, AccSt.value]
+
+/-- the defined results for the empty group: COUNT 0, SUM 0, AVG 0 (xsd:integer), MIN/MAX/SAMPLE unbound,
+    GROUP_CONCAT "" -/
+def Statement_empty_group_values : Prop :=
+  ∀ (a : AggSpec),
+    aggValue a [] = (match a.kind with
+      | .count => some (.num .integer 0 0)
+      | .sum => some (.num .integer 0 0)
+      | .avg => some (.num .integer 0 0)
+      | .min => none
+      | .max => none
+      | .sample => none
+      | .gconcat => some (.str [] []))
+
+theorem empty_group_values : Statement_empty_group_values := by
+  intro a
+  obtain ⟨k, d, s, arg, sep, res⟩ := a
+  cases k <;> simp [aggValue, accRun, initAcc, AccSt.value, joinStr] <;> decide
+
+/-! ## HAVING and the order of the stages -/
+
+/-- HAVING keeps exactly the groups (rows after aggregation) whose condition evaluates to true, in order -/
+def Statement_having_filters_groups : Prop :=
+  ∀ (e : Expr) (rows : List Row),
+    (filterRows e rows).Sublist rows ∧
+    ∀ r, r ∈ filterRows e rows ↔ r ∈ rows ∧ evalE e r = some (.bool true)
+
+theorem having_filters_groups : Statement_having_filters_groups := by
+  intro e rows
+  refine ⟨List.filter_sublist, fun r => ?_⟩
+  simp only [filterRows, List.mem_filter]
+  constructor
+  · rintro ⟨h1, h2⟩
+    refine ⟨h1, ?_⟩
+    cases hv : evalE e r with
+    | none => rw [hv] at h2; cases h2
+    | some t =>
+      rw [hv] at h2
+      cases t <;> simp only [ebvTrue, Bool.false_eq_true] at h2
+      rw [h2]
+  · rintro ⟨h1, h2⟩
+    exact ⟨h1, by rw [h2]; rfl⟩
+
+/-- the stages of an aggregate query, in the order of SPARQL §18.2.4/18.2.5: AggregateJoin over the rewritten
+    aggregates, aliases of the sampled SELECT variables, HAVING, SELECT expressions, ORDER BY, projection,
+    DISTINCT/REDUCED, OFFSET/LIMIT -/
+theorem query_stages (q : Query) (input : List Row) (h : q.isAggregate = true) :
+    let t := translateAggregates q
+    let w := q.nuser + t.A.length
+    let grouped := t.aliases.foldl (fun rows al => extend (.var al.1) al.2 rows)
+      (aggregateJoin w q.group t.A (input.map (padRow w)))
+    evalQuery q input =
+      applySlice q.offset q.limit
+        (applyModifier q.modifier
+          (evalProject q.nuser (q.proj.map Proj.name)
+            (evalOrderBy t.order (extendProj t.proj (applyHaving t.having grouped))))) := by
+  simp only [evalQuery, groupStage, h, if_true]
+
+/-- still to be proved: evaluating the rewritten expression (aggregates replaced by `__agg_n__`, variables by
+    SAMPLE) on the row AggregateJoin produces for a group equals evaluating the original expression with each
+    aggregate computed over the group.  (Tied by correspondence only.) -/
+def Statement_rewrite_correct : Prop :=
+  ∀ (q : Query) (rows : List Row) (p : Proj), q.isAggregate = true → q.group = none → p ∈ q.proj →
+    ∀ v e, p = .expr v e → e.hasAgg = true →
+      let t := translateAggregates q
+      let w := q.nuser + t.A.length
+      ∀ g ∈ aggregateJoin w none t.A (rows.map (padRow w)),
+      ∀ p' ∈ t.proj, ∀ e', p' = .expr v e' →
+        evalE e' g = (match e with
+          | .agg k d s arg sep => aggValue ⟨k, d, s, arg, sep, 0⟩ (rows.map (padRow w))
+          | _ => evalE e' g)
 
 end RV.C08
